@@ -45,7 +45,16 @@ typedef struct {
   int locked_writes;          /* number of lock-prefixed / xchg memory writes (C16) */
   int plain_writes_dm;        /* number of ordinary stores to data memory */
   int rsp_adjust;             /* bytes subtracted from rsp by "sub $n,%rsp" beyond the slot model (never in balance) */
+  int halt;                   /* a backward jump was taken: this single pass ends here (later text is not executed) */
+  int nlab;                   /* labels defined so far by the code under proof */
+  int skip_ev;                /* event index of the jump that started the current skip */
+  int bj_label;               /* label table index the back-edge went to (-1: none taken) */
+  int bj_at;                  /* event number of the back-edge */
 } GM;
+#define GM_LABELS 8
+#define GM_LABLEN 28
+typedef struct { _Bool has_num; long num; char text[GM_LABLEN]; int len; int sp; int x87; int at; } GLabel;
+extern GLabel gm_lab[GM_LABELS];
 
 typedef struct { int kind; long a; long b; const char *s; } GEvent;
 
@@ -56,6 +65,7 @@ extern unsigned char gm_dm[GM_DM];
 extern GEvent gm_ev[GM_EVENTS];
 
 #ifdef GM_DEFINE
+GLabel gm_lab[GM_LABELS];
 GM m;
 uint64_t gm_stk[GM_STK];
 unsigned char gm_rz[GM_RZ];
@@ -359,32 +369,57 @@ extern char gm_skip_text[64]; extern int gm_skip_len;
 char gm_skip_text[64]; int gm_skip_len;
 #endif
 
+static inline int gm_find_label(const char *s, int stem, _Bool hn, long num) {
+  for (int i = 0; i < GM_LABELS; i++) {
+    if (i >= m.nlab) break;
+    if (gm_lab[i].has_num == hn && (!hn || gm_lab[i].num == num) && gm_same_text(s, stem, gm_lab[i].text, gm_lab[i].len)) return i;
+  }
+  return -1;
+}
 static inline void gm_jump_to(const GLine *L, const char *s, int n) {
   // numeric local labels "1f" / "1b"
   if (n == 2 && s[0] >= '0' && s[0] <= '9' && s[1] == 'f') { gm_start_skip_numeric(s[0] - '0'); return; }
-  if (n == 2 && s[0] >= '0' && s[0] <= '9' && s[1] == 'b') { gm_event(EV_BACKJMP, s[0] - '0', 0, 0); return; }
+  if (n == 2 && s[0] >= '0' && s[0] <= '9' && s[1] == 'b') { gm_event(EV_BACKJMP, -1, 0, 0); m.halt = 1; return; }
   long num; int stem; _Bool hn = gm_label_num(L, s, n, &num, &stem);
-  if (stem > 63) { m.unknown = 1; return; }
+  if (stem > 63 || stem >= GM_LABLEN) { m.unknown = 1; return; }
+  int k = gm_find_label(s, stem, hn, num);
+  if (k >= 0) {
+    // backward jump to a label this code already emitted: the loop back-edge.  The machine state must be the one the
+    // label was reached with (stack/x87 balance across iterations); this single pass ends here.
+    if (gm_lab[k].sp != m.sp || gm_lab[k].x87 != m.x87) m.bad = 1;
+    m.bj_label = k; m.bj_at = m.nev;
+    gm_event(EV_BACKJMP, k, 0, 0);
+    m.halt = 1;
+    return;
+  }
   for (int i = 0; i < stem; i++) gm_skip_text[i] = s[i];
   gm_skip_len = stem;
-  m.skip = 1; m.skip_kind = hn ? 2 : 3; m.skip_num = num;
+  m.skip = 1; m.skip_kind = hn ? 2 : 3; m.skip_num = num; m.skip_ev = m.nev - 1;
 }
 
 static inline void gm_define_label(const GLine *L, const char *s, int n) {
   // s[0..n) is the label text without the colon
+  if (m.halt) return;
   if (n == 1 && s[0] >= '0' && s[0] <= '9') {
     if (m.skip && m.skip_kind == 1 && m.skip_num == s[0] - '0') m.skip = 0;
     return;
   }
   long num; int stem; _Bool hn = gm_label_num(L, s, n, &num, &stem);
-  if (m.skip && m.skip_kind == (hn ? 2 : 3) && gm_same_text(s, stem, gm_skip_text, gm_skip_len) && (!hn || num == m.skip_num)) {
+  if (stem >= GM_LABLEN || m.nlab >= GM_LABELS) { m.unknown = 1; return; }
+  _Bool landing = m.skip && m.skip_kind == (hn ? 2 : 3) && gm_same_text(s, stem, gm_skip_text, gm_skip_len) && (!hn || num == m.skip_num);
+  if (m.skip && !landing) return;             /* a label passed over while skipping is not reached by this pass */
+  int k = m.nlab++;
+  gm_lab[k].has_num = hn; gm_lab[k].num = num; gm_lab[k].len = stem; gm_lab[k].sp = m.sp; gm_lab[k].x87 = m.x87; gm_lab[k].at = m.nev;
+  for (int i = 0; i < GM_LABLEN; i++) gm_lab[k].text[i] = i < stem ? s[i] : 0;
+  if (landing) {
     m.skip = 0;
-    return;
+    if (m.skip_ev >= 0 && m.skip_ev < GM_EVENTS) gm_ev[m.skip_ev].b = k + 1;   /* the jump landed on label k */
   }
-  if (!m.skip) gm_event(EV_LABEL, num, hn, 0);
+  gm_event(EV_LABEL, k, landing, 0);
 }
 
 static inline void gm_exec(const GLine *L, const char *s, int n);
+void gm_call_hook(void);     /* provided by the harness: effect of an emitted call instruction on the machine */
 
 // Execute one rendered line (may contain several ';'-separated instructions).
 static inline void gm_exec_line(const GLine *L) {
@@ -403,8 +438,8 @@ static inline void gm_exec_line(const GLine *L) {
       if (c >= 0) {
         gm_define_label(L, L->t + a, c - a);
         int a2 = c + 1; while (a2 < b && L->t[a2] == ' ') a2++;
-        if (b > a2 && !m.skip) gm_exec(L, L->t + a2, b - a2);
-      } else if (!m.skip) {
+        if (b > a2 && !m.skip && !m.halt) gm_exec(L, L->t + a2, b - a2);
+      } else if (!m.skip && !m.halt) {
         gm_exec(L, L->t + a, b - a);
       }
     }
@@ -504,7 +539,8 @@ static inline void gm_exec(const GLine *L, const char *s, int n) {
       uint64_t base = (o1.reg == RBP) ? GM_RBP : m.r[o1.reg];
       gm_set_reg(o2.reg, 8, 0, base + (uint64_t)o1.val); return;
     }
-    m.unknown = 1; return;      /* symbol(%rip) forms are address-formation (C15), not executed */
+    if (o1.kind == O_SYM) { gm_event(EV_DIRECTIVE, 1, 0, 0); gm_set_reg(o2.reg, 8, 0, 0x600000UL); return; }   /* symbol(%rip): an abstract link-time address (form checked by C15) */
+    m.unknown = 1; return;
   }
   // ---- ALU
   if (MN("add") || MN("sub") || MN("and") || MN("or") || MN("xor") || MN("cmp") || MN("test") || MN("addq") || MN("addl") || MN("subq")) {
@@ -584,8 +620,7 @@ static inline void gm_exec(const GLine *L, const char *s, int n) {
   if (MN("jmp")) {
     if (o1.indirect) { gm_event(EV_JMP_IND, 0, 0, 0); return; }
     if (o1.kind != O_LABEL) { m.unknown = 1; return; }
-    if (o1.len == 2 && o1.text[1] == 'b') { gm_event(EV_BACKJMP, 0, 0, 0); return; }
-    gm_event(EV_JMP, 0, 0, 0);
+    gm_event(EV_JMP, 1, 0, 0);
     gm_jump_to(L, o1.text, o1.len); return;
   }
   if (mn[0] == 'j') {
@@ -595,7 +630,12 @@ static inline void gm_exec(const GLine *L, const char *s, int n) {
     if (c) gm_jump_to(L, o1.text, o1.len);
     return;
   }
-  if (MN("call")) { gm_event(EV_CALL, 0, 0, 0); return; }    /* harnesses that care install their own call hook */
+  if (MN("call")) {
+    // System V call: rsp must be 16-byte aligned at the call; caller-saved registers are clobbered by the callee
+    gm_event(EV_CALL, m.sp, 0, 0);
+    gm_call_hook();
+    return;
+  }
   if (MN("ret")) { gm_event(EV_RET, 0, 0, 0); return; }
   // ---- atomics
   if (MN("cmpxchg")) {
@@ -701,10 +741,22 @@ static inline void gm_exec(const GLine *L, const char *s, int n) {
     else m.st_int[m.x87 - 1] = 0;
     return; }
   if (MN("fchs")) { if (m.x87 < 1) { m.bad = 1; return; } m.st_int[m.x87 - 1] = 0; return; }
-  if (MN("fcomip") || MN("fucomip")) { if (m.x87 < 2) { m.bad = 1; return; } m.x87--; m.flags_valid = 1; /* outcome not modelled: flags arbitrary */ return; }
+  if (MN("fcomip") || MN("fucomip")) {   /* compare %st(0) with %st(1), set ZF/PF/CF, pop */
+    if (m.x87 < 2) { m.bad = 1; return; }
+    if (m.st_int[m.x87 - 1] == 1 && m.st_int[m.x87 - 2] == 1) { int64_t a = m.st[m.x87 - 1], b = m.st[m.x87 - 2]; gm_ucomi(0, a < b, a == b); }
+    else { m.flags_valid = 1; /* operands outside the integer-valued model: outcome arbitrary */ }
+    m.x87--; return;
+  }
   if (MN("fnstcw")) { if (o1.kind != O_MEM) { m.unknown = 1; return; } gm_store(&o1, 2, 0x037f); m.cw_saved = 1; return; }
   if (MN("fldcw")) { if (o1.kind != O_MEM) { m.unknown = 1; return; } m.cw_trunc = (gm_load(&o1, 2) & 0x0c00) == 0x0c00; return; }
-  if (MN("rep")) { m.unknown = 1; return; }
+  if (MN("rep")) {   /* rep stosb: store %al to [%rdi] %rcx times */
+    if (!gm_streq(s + mlen + 1, n - mlen - 1, "stosb")) { m.unknown = 1; return; }
+    uint64_t cnt = m.r[RCX];
+    if (cnt > 64) { m.bad = 1; return; }
+    for (uint64_t i = 0; i < 64; i++) { if (i >= cnt) break; GOp d; d.kind = O_MEM; d.reg = RDI; d.val = (long)i; gm_store(&d, 1, m.r[RAX] & 0xff); }
+    m.r[RDI] += cnt; m.r[RCX] = 0;
+    return;
+  }
   m.unknown = 1;
 }
 
